@@ -262,6 +262,11 @@ func (kc *kernelCtx) runFunc(b *Block) *Unit {
 	if !hasBindingErr(u) {
 		return u
 	}
+	// a closure contract (F$1$2) whose closure moved: inserting or removing a function literal renumbers its siblings. If
+	// exactly one sibling closure has every name the contract binds (and the same arity), the contract is run against it.
+	if u2 := kc.rebindClosure(u, b); u2 != nil {
+		return u2
+	}
 	fn := kc.w.allFuncs(b.Pkg)[b.Name]
 	if fn == nil {
 		return u
